@@ -61,6 +61,11 @@ def pure_local(body, op, depth=0):
         return pure_local(body, rv["op"], depth + 1)
     if rv["k"] == "ref" and not rv["place"]["p"]:
         return pure_local(body, {"copy": rv["place"]}, depth + 1)
+    if rv["k"] == "ref" and rv["place"]["p"] == ["*"]:
+        # `&*r`: a reborrow of the reference r
+        return pure_local(body, {"copy": {"l": rv["place"]["l"], "p": []}}, depth + 1)
+    if rv["k"] == "use" and op_place(rv["op"]) is not None and op_place(rv["op"])["p"] == ["*"] and body.local_ty(p["l"]).startswith("&"):
+        return pure_local(body, {"copy": {"l": op_place(rv["op"])["l"], "p": []}}, depth + 1)
     return p["l"]
 
 
